@@ -434,6 +434,22 @@ func (e *Engine) execBlock(st *State, b *ssa.BasicBlock, from *ssa.BasicBlock) {
 func (e *Engine) enterLoopHeader(st *State, li *loopInfo, from *ssa.BasicBlock) bool {
 	fr := st.top()
 	spec := e.loopSpecFor(fr.contract, fr.fn, li)
+	evalFr := fr
+	if spec == nil && len(st.frames) > 1 && e.unit.C != nil {
+		// loops of inlined callees are specified in the unit's contract as "<callee>/<anchor>"
+		// and evaluated in the scope of the function under contract
+		for _, ls := range e.unit.C.Loops {
+			pfx := stripTypeArgs(fr.fn.Name()) + "/"
+			if strings.HasPrefix(ls.Anchor, pfx) {
+				tmp := *ls
+				tmp.Anchor = strings.TrimPrefix(ls.Anchor, pfx)
+				if e.loopSpecFor(&Contract{Loops: []*LoopSpec{&tmp}}, fr.fn, li) != nil {
+					spec = ls
+					evalFr = st.frames[0]
+				}
+			}
+		}
+	}
 	pre := fmt.Sprintf("%s.loop%d", e.oblPrefix(fr.fn), li.ord)
 	for _, a := range fr.active {
 		if a == li {
@@ -441,7 +457,8 @@ func (e *Engine) enterLoopHeader(st *State, li *loopInfo, from *ssa.BasicBlock) 
 			if spec != nil && spec.Unroll > 0 {
 				break
 			}
-			env := e.envFor(st, fr, st.old)
+			env := e.envFor(st, evalFr, st.old)
+			env.extraFr = fr
 			for _, h := range e.loopHeaps(st, li) {
 				if f := e.frameFormula(st, h); f != "" {
 					e.addObl(st, pre+".preserve.frame."+h, "frame", "frame condition preserved by loop body", f)
@@ -476,7 +493,8 @@ func (e *Engine) enterLoopHeader(st *State, li *loopInfo, from *ssa.BasicBlock) 
 		return true
 	}
 	// first entry
-	env := e.envFor(st, fr, st.old)
+	env := e.envFor(st, evalFr, st.old)
+	env.extraFr = fr
 	if spec != nil {
 		for _, inv := range spec.Invs {
 			e.addObl(st, pre+".entry."+inv.Label, "invariant", inv.Src, e.evalBool(st, env, inv.E))
@@ -494,7 +512,8 @@ func (e *Engine) enterLoopHeader(st *State, li *loopInfo, from *ssa.BasicBlock) 
 			st.assume(f)
 		}
 	}
-	env = e.envFor(st, fr, st.old)
+	env = e.envFor(st, evalFr, st.old)
+	env.extraFr = fr
 	if spec != nil {
 		for _, inv := range spec.Invs {
 			st.assume(e.evalBool(st, env, inv.E))
@@ -639,6 +658,11 @@ func (e *Engine) addrHeaps(addr ssa.Value, heaps map[string]bool) {
 			n, _ := e.arrMapName(t.Elem())
 			heaps[n] = true
 		case *types.Pointer:
+			if fa, ok := x.X.(*ssa.FieldAddr); ok {
+				// element of an array-typed struct field: the field's heap map changes
+				e.addrHeaps(fa, heaps)
+				return
+			}
 			if at, ok := t.Elem().Underlying().(*types.Array); ok {
 				n, _ := e.arrMapName(at.Elem())
 				heaps[n] = true
@@ -882,6 +906,7 @@ func (e *Engine) runAts(st *State, in ssa.Instruction, after bool) {
 			continue
 		}
 		env := e.envFor(st, evalFr, st.old)
+		env.extraFr = fr
 		if ci, ok := in.(ssa.CallInstruction); ok {
 			for _, a := range ci.Common().Args {
 				if r, ok := fr.regs[a]; ok {
